@@ -41,7 +41,7 @@ MIN_NONTRIVIAL = {"quick": 60, "thorough": 400}
 PLAN = [("bounds_form", 100, 1500), ("dict_nlc", 120, 2000),
         ("lin_split", 120, 2000), ("nl_split", 120, 2000),
         ("regroup", 100, 1500), ("fixed", 200, 3000), ("scale", 200, 3000),
-        ("fixed_scale", 120, 2000)]
+        ("fixed_scale", 120, 2000), ("nan_limits", 120, 2000)]
 EPS = np.finfo(float).eps
 
 
@@ -294,6 +294,35 @@ def run_case(case):
         ra, rb = mrun.run(spec), mrun.run(s2)
         compare(ra, rb, viols, kind, info)
         nt = f"{fam}|m{m}|n{n}|{spec['con_kind']}"
+    elif fam == "nan_limits":
+        # a NaN limit means "no limit": same problem with -inf / +inf
+        spec = base_spec(rng, str(rng.choice(["lin", "nl", "both"])),
+                         limit_kinds=("upper", "lower", "two"))
+        s2 = copy.deepcopy(spec)
+        changed = 0
+        for key in ("lin", "nl"):
+            for c1, c2 in zip(spec.get(key, []), s2.get(key, [])):
+                if not isinstance(c1.get("lb"), list):
+                    continue
+                for i in range(len(c1["lb"])):
+                    if math.isinf(c1["lb"][i]) and rng.random() < 0.7:
+                        c1["lb"][i] = math.nan
+                        changed += 1
+                    if math.isinf(c1["ub"][i]) and rng.random() < 0.7:
+                        c1["ub"][i] = math.nan
+                        changed += 1
+        if spec.get("bounds") and rng.random() < 0.5:
+            for i in range(spec["n"]):
+                if math.isinf(spec["bounds"]["lb"][i]):
+                    spec["bounds"]["lb"][i] = math.nan
+                    changed += 1
+                if math.isinf(spec["bounds"]["ub"][i]):
+                    spec["bounds"]["ub"][i] = math.nan
+                    changed += 1
+        ra, rb = mrun.run(spec), mrun.run(s2)
+        compare(ra, rb, viols, "NaN limits vs infinite limits", info)
+        if changed:
+            nt = f"nan_limits|{spec['con_kind']}|n{spec['n']}|c{min(changed, 4)}"
     elif fam == "nl_split":
         spec = base_spec(rng, str(rng.choice(["nl", "both"])))
         n = spec["n"]
